@@ -328,3 +328,24 @@ def _elems(f, x):
 
     go(f)
     return out
+
+
+def thorough(ctx):
+    """the lemma behind the hex grammar, decided instead of assumed: the language of
+    {bytes.fromhex(s) succeeds, s.isalnum(), s.lower() == s} is exactly ([0-9a-f]{2})+, with
+    len(s) == n exactly [0-9a-f]{n}; and the automata of the string atoms agree with the
+    interpreter's own functions on every word up to three characters over the exact partition of
+    Unicode into character classes"""
+    from sa import strlang as SL
+
+    conj = [SL.L_fromhex(), SL.L_isalnum(), SL.L_lower_fixed()]
+    a = SL.decide(conj, SL.L_hex(None))
+    b = SL.decide([SL.L_hex(None)], ("and",) + tuple(conj))
+    ctx.ob("R1", "lemma|hex-string", "sa/strlang.py", "{fromhex ok, isalnum, lower() == s} %s ([0-9a-f]{2})+ (automata over %d character classes of Unicode)" % ("is exactly" if a["included"] and b["included"] else "is NOT", a["classes"]), a["included"] and b["included"], {"witness": a["witness_outside"] or b["witness_outside"]})
+    for n in (40, 64, 128):
+        a = SL.decide(conj + [SL.L_len("==", n)], SL.L_hex(n))
+        b = SL.decide([SL.L_hex(n)], ("and",) + tuple(conj + [SL.L_len("==", n)]))
+        ctx.ob("R1", "lemma|hex-%d" % n, "sa/strlang.py", "with len(s) == %d the conjuncts %s [0-9a-f]{%d}" % (n, "decide exactly" if a["included"] and b["included"] else "do NOT decide", n), a["included"] and b["included"])
+    words, bad, ncls = SL.validate_atoms(3)
+    ctx.count("R1.atom_words", words)
+    ctx.ob("R1", "atoms-agree-with-interpreter", "sa/strlang.py", "the automata of 15 string atoms agree with the interpreter on all %d words of up to 3 characters over %d character classes%s" % (words, ncls, "" if not bad else "; MISMATCH e.g. %r" % (bad[0],)), not bad)
